@@ -80,14 +80,35 @@ def hdr_fields(ctx, prog, rule):
     R = Resolver(f)
     xmlw = calls_where(f, lambda c, t, R: c.endswith("Write::write_all"))
     found = False
+    built = []                      # (block, stmt, {field: value tree}) of every real header value built here
     for bi in f.cfg():
         for si, st in enumerate(f.blocks[bi]["stmts"]):
             rv = st["rv"]
-            if not is_variant_agg(rv, "header::Header", "Header"):
+            if is_variant_agg(rv, "header::Header", "Header"):
+                built.append((bi, si, {n: strip(R.operand(o)) for n, o in zip(rv["kind"]["fields"], rv["ops"])}))
+    if not built:
+        # `let mut header = Header::default(); header.xml_length = ..; ..`: the same value built by field assignment
+        for n_ in range(len(f.locals)):
+            if f.local_ty(n_) != "header::Header":
                 continue
+            ds_ = [d for d in f.defs().get(n_, []) if d[2] in f.cfg()]
+            whole = [d for d in ds_ if not d[4]["proj"]]
+            parts = [d for d in ds_ if len(d[4]["proj"]) == 1 and d[4]["proj"][0]["k"] == "field" and d[0] == "stmt"]
+            if len(whole) == 1 and whole[0][0] == "call" and callee_of(whole[0][1]).endswith("header::Header as std::default::Default>::default") and parts and len(parts) + 1 == len(ds_):
+                vals_ = {}
+                dflt = ("call", callee_of(whole[0][1]), (), whole[0][2], ())
+                for fld_ in ("signature", "major", "minor", "phys_length", "phys_xml_offset", "xml_length", "page_size"):
+                    vals_[fld_] = ("field", dflt, fld_)
+                dup = False
+                for d in parts:
+                    nm = d[4]["proj"][0]["name"]
+                    dup = dup or not (vals_[nm][0] == "field" and vals_[nm][1] is dflt)
+                    vals_[nm] = strip(R.rvalue(d[1]))
+                if not dup:
+                    built.append((parts[-1][2], parts[-1][3], vals_))
+    for bi, si, vals in built:
+        if True:
             found = True
-            fields = rv["kind"]["fields"]
-            vals = {n: strip(R.operand(o)) for n, o in zip(fields, rv["ops"])}
             off = vals.get("phys_xml_offset")
             ok_off = off is not None and off[0] == "call" and off[1] == PPOS and all(f.dominates(off[3], w) for w in xmlw) and bool(xmlw)
             ctx.ob(rule, "header-field/phys_xml_offset", ok_off, "phys_xml_offset <- %s (must be physical_position() taken before the XML is written)" % tree_str(off), where=f.file_line(bi, si))
